@@ -245,6 +245,13 @@ func canonAtom(a string) (string, bool) {
 						x := rhs[1 : len(rhs)-5]
 						return "(" + x + " < " + lhs + ")", !flip
 					}
+					// lengths are never negative: 0 < len(x) is !(len(x) == 0), len(x) < 1 is len(x) == 0
+					if lhs == "0" && strings.HasPrefix(rhs, "len(") {
+						return "(" + rhs + " == 0)", !flip
+					}
+					if rhs == "1" && strings.HasPrefix(lhs, "len(") {
+						return "(" + lhs + " == 0)", flip
+					}
 					return "(" + lhs + " < " + rhs + ")", flip
 				}
 			}
